@@ -31,8 +31,11 @@ IsEvent(name) == /\ l <= Len(Traces[tid].events)
                  /\ l' = l + 1
                  /\ UNCHANGED tid
 (* the logged post-state must be the one the specification action produces *)
+(* the invariants are conjoined to the trace actions as guards on the next state: TLC stops at the first
+   violated INVARIANT, which would leave the remaining traces of the batch unexplored *)
 Logged == /\ q' = Tup4(Ev.q)
           /\ R' = << Mat3(Ev.R), Ev.den >>
+          /\ Faithful' /\ ProperRot'
 
 TMulRight == IsEvent("MulRight") /\ MulRight(Ev.route, Tup4(Ev.v)) /\ Logged
 TMulLeft  == IsEvent("MulLeft")  /\ MulLeft(Ev.route, Tup4(Ev.v))  /\ Logged
